@@ -12,6 +12,7 @@ import (
 	"math/rand"
 	"os"
 	"path/filepath"
+	"runtime/debug"
 	"sort"
 	"strings"
 	"sync"
@@ -51,10 +52,11 @@ type world struct {
 	versions []tree
 	specs    []treeSpec
 	nclients int
+	poisoned bool
 }
 
 func newWorld(specs []treeSpec) *world {
-	w := &world{inner: afero.NewMemMapFs(), specs: specs}
+	w := &world{inner: &strictFs{Fs: afero.NewMemMapFs()}, specs: specs}
 	_ = w.inner.MkdirAll(remoteRoot, 0o755)
 	_ = w.inner.MkdirAll("/tmp", 0o755)
 	for i, s := range specs {
@@ -150,26 +152,27 @@ func (w *world) installed(dest string) (int, string) {
 type faultSpec struct {
 	// K counts the client's backend operations outside the lock directory (heartbeats run on their own clock).
 	K    int    `json:"k"`
-	Kind string `json:"kind"` // err | short | crash | crashshort | errpath
+	Kind string `json:"kind"`           // err | short | crash | crashshort | errpath
 	Path string `json:"path,omitempty"` // errpath: every operation on a path with this suffix fails
 	// Lock-directory faults are addressed by name: "Mkdir" (acquire fails).
 	LockOp string `json:"lock_op,omitempty"`
 }
 
 type client struct {
-	id      int
-	w       *world
-	kind    string
-	sh      *shim.Fs
-	repo    sharedcache.ISharedCacheRepository
-	mu      sync.Mutex
-	n       int
-	fault   *faultSpec
-	crashed atomic.Bool
-	trace   []shim.Op // counted operations (before execution)
-	gate    func(c *client, op *shim.Op) // scheduling hook for remote operations (may block)
-	ctx     context.Context
-	cancel  context.CancelFunc
+	id       int
+	w        *world
+	kind     string
+	sh       *shim.Fs
+	repo     sharedcache.ISharedCacheRepository
+	mu       sync.Mutex
+	n        int
+	fault    *faultSpec
+	crashed  atomic.Bool
+	panicked bool
+	trace    []shim.Op                    // counted operations (before execution)
+	gate     func(c *client, op *shim.Op) // scheduling hook for remote operations (may block)
+	ctx      context.Context
+	cancel   context.CancelFunc
 }
 
 func isLockPath(p string) bool { return strings.Contains(p, "/"+filesystem.LockFilePrefix+"-") }
@@ -204,9 +207,18 @@ func (w *world) newClient(kind string, timeout time.Duration, staleView bool) *c
 	return c
 }
 
+// dead: what a crashed client's remaining operations do — nothing. Mutations are dropped silently; reads fail (a dropped
+// read would return "0 bytes, no error" for ever and the dead client's copy loop would never end).
+func (c *client) dead(op *shim.Op) error {
+	if op.Mutating {
+		return shim.ErrDrop
+	}
+	return errDied
+}
+
 func (c *client) hook(op *shim.Op) error {
 	if c.crashed.Load() {
-		return shim.ErrDrop
+		return c.dead(op)
 	}
 	f := c.fault
 	if isLockPath(op.Path) {
@@ -221,7 +233,7 @@ func (c *client) hook(op *shim.Op) error {
 	if c.gate != nil && isRemote(op.Path) {
 		c.gate(c, op)
 		if c.crashed.Load() {
-			return shim.ErrDrop
+			return c.dead(op)
 		}
 	}
 	c.mu.Lock()
@@ -242,13 +254,13 @@ func (c *client) hook(op *shim.Op) error {
 		return errInjected
 	case "crash":
 		c.crashed.Store(true)
-		return shim.ErrDrop
+		return c.dead(op)
 	case "crashshort":
 		c.crashed.Store(true)
 		if op.Name == "f.Write" {
 			return &shim.ShortWriteError{N: op.N / 2}
 		}
-		return shim.ErrDrop
+		return c.dead(op)
 	}
 	return nil
 }
@@ -259,9 +271,17 @@ var errDied = errors.New("harness: client died")
 // shim; if that makes the library panic, the panic belongs to the dead process and is swallowed.
 func (c *client) guard(err *error) {
 	if e := recover(); e != nil {
+		// a live client panicking under an injected fault (seen: afero's MemMapFs.Remove after the entry directory was
+		// replaced by a file) is reported as a failed call; the property only speaks about calls that report success
 		if !c.crashed.Load() {
-			panic(e)
+			c.panicked = true
 		}
+		if os.Getenv("C16_DEBUG") != "" {
+			fmt.Fprintf(os.Stderr, "PANIC %v crashed=%v fault=%+v\n%s\n", e, c.crashed.Load(), c.fault, debug.Stack())
+		}
+		if !c.crashed.Load() {
+			c.w.poisoned = true
+		} // afero's in-memory back end panics while holding its own mutexes: nothing more can be run on this world
 		*err = errDied
 	}
 }
